@@ -64,7 +64,8 @@ TOL_ID_DEC = 1e-10
 TOL_ID_FD = 1e-5
 TOL_TREE = 1e-10
 BAND = 1e-9
-EVIDENCE_EXTRA = {'tolerances': {'liquid_density_rel': TOL_LIQ_D, 'liquid_energy_J_per_kg': TOL_LIQ_U, 'steam_density_rel': TOL_STM_D,
+EVIDENCE_EXTRA = {'measured_reach': 'quick run under coverage (pinned tree): every statement and branch of t2thermo.py cowat, supst, sat, tsat, visw, viss, separated_steam_fraction, b23p, region executed except the scalar-return fallback of tsat (line 299)',
+                  'tolerances': {'liquid_density_rel': TOL_LIQ_D, 'liquid_energy_J_per_kg': TOL_LIQ_U, 'steam_density_rel': TOL_STM_D,
                                  'steam_energy_J_per_kg': TOL_STM_U, 'saturation_pressure_rel': TOL_SAT, 'tsat_sat_rel': TOL_INV,
                                  'identity_decimal_rel': TOL_ID_DEC, 'identity_fd_rel': TOL_ID_FD, 'double_vs_tree_rel': TOL_TREE,
                                  'range_limit_exclusion_band_rel': BAND, 'classifier_exclusion': 'between the two formulations\' curves +-1e-6'}}
@@ -577,6 +578,7 @@ def oracle(ctx, I, T, res, rng, scale=1.0):
     for t, p in rc:
         apply('regions', {'t': t, 'p': p})
     # separated steam fraction
+    hyp_h = [0, 0]
     for _ in range(n(250, 6000)):
         p1 = rng.choice([rng.uniform(0.1e6, 5e6), 0.1e6, 5e6])
         p2 = None if rng.random() < 0.5 else rng.choice([rng.uniform(0.1e6, 5e6), 0.1e6, 5e6])
@@ -587,6 +589,24 @@ def oracle(ctx, I, T, res, rng, scale=1.0):
         if p2 is not None: c['p2'] = p2
         apply('fraction', c)
         res.count('fraction:' + ('one-stage' if p2 is None else 'two-stage'))
+        # hypothesis of steam_fraction_monotone (steam richer in enthalpy than water) on these separator pressures
+        try:
+            with warnings.catch_warnings():
+                warnings.simplefilter('ignore')
+                def hh(p):
+                    ts = T.tsat(p)
+                    d, u = T.cowat(ts, p); hl = u + p / d
+                    d, u = T.supst(ts, p); hs = u + p / d
+                    return hl, hs
+                hl1, hs1 = hh(p1)
+                okh = hl1 < hs1
+                if p2 is not None:
+                    hl2, hs2 = hh(p2)
+                    okh = okh and hl2 < hs2 and hl1 <= hs2
+        except Exception:
+            okh = False
+        hyp_h[1] += 1; hyp_h[0] += bool(okh)
+    res.hyp['steam_fraction_monotone: hl1 < hs1 (and hl2 < hs2, hl1 <= hs2 for two stages) at the separator pressures explored'] = hyp_h
 
 
 def search(ctx, seconds, res):
